@@ -232,8 +232,12 @@ def run(prop, tier, seed):
     p_h = [r for r in kani_results if r['meta']['kind'] == 'P' and r['meta']['expect'] != 'fail']
     b_h = [r for r in kani_results if r['meta']['kind'] == 'B']
     n_k_ok = sum(1 for r in p_h if r['status'] == 'proved')
-    obligations = n_v_units + n_v_fail + len(p_h)
-    discharged = n_v_units + n_k_ok
+    # obligations that fail exactly as a recorded known finding are reported separately, not counted
+    kf_kani = set(e.get('harness') for _, e in known_hits if e.get('harness'))
+    kf_verus = sum(1 for _, e in known_hits if e.get('verus'))
+    p_h_counted = [r for r in p_h if r['harness'] not in kf_kani]
+    obligations = n_v_units + max(n_v_fail - kf_verus, 0) + len(p_h_counted)
+    discharged = n_v_units + sum(1 for r in p_h_counted if r['status'] == 'proved')
     tags = [t for r in verus_results for t in r.get('tags', []) if not t['props'] or prop in t['props']]
     fns = [dict(function=f['name'], file=f['file'], lines=f['lines'], under_contract=f['contract'], kernel=r['kernel'])
            for r in verus_results for f in r.get('functions', [])]
@@ -257,7 +261,7 @@ def run(prop, tier, seed):
                                   failed_checks=r['failed_checks'][:5], replay=r.get('replay')) for r in kani_results]),
         bounded=[dict(harness=r['harness'], bound=r['meta']['bound'], status=r['status'], note='bounded stand-in: NOT counted under obligations/discharged') for r in b_h],
         proof_script_stale=stale, undecided=undecided,
-        known_findings_hit=[k['id'] for k, _ in known_hits],
+        known_findings_hit=[dict(id=k['id'], obligation=k['obligation'], what=k['what'], note='fails exactly as recorded in known_findings.json; excluded from obligations/discharged') for k, _ in known_hits],
         not_decided_by_this_check=cfg.get('glue', []),
         explanation=cfg.get('explanation', ''),
     )
